@@ -257,6 +257,14 @@ func parseVal(s string) interface{} {
 		return true
 	case s == "b0":
 		return false
+	case s[0] == 'P':
+		// a pointer value: P<k> names one allocation; every allocation points at an equal payload,
+		// so two of them differ by identity only
+		k := atoi(s[1:])
+		if ptrVals[k] == nil {
+			ptrVals[k] = &ptrPayload{N: 7, L: []int{1, 2}}
+		}
+		return ptrVals[k]
 	case s[0] == 'u':
 		return userVal{atoi(s[1:])}
 	case s[0] == 'a':
@@ -274,10 +282,24 @@ func parseVal(s string) interface{} {
 	panic("bad val " + s)
 }
 
+type ptrPayload struct {
+	N int
+	L []int
+}
+
+var ptrVals = map[int]*ptrPayload{}
+
 func showVal(v interface{}) string {
 	switch x := v.(type) {
 	case nil:
 		return "nil"
+	case *ptrPayload:
+		for k, p := range ptrVals {
+			if p == x {
+				return fmt.Sprintf("P%d", k)
+			}
+		}
+		return "P?"
 	case bool:
 		return "b" + b01(x)
 	case userVal:
@@ -1238,6 +1260,9 @@ func (x *Exec) do1(line string) (res string, leanLine string) {
 		x.pending = id
 		defer func() { x.pending = -1 }()
 		x.tables[t].AddHeaders(its...)
+		if !sameItems(its, x, toks[2]) {
+			return "CALLER-SLICE-MODIFIED", line
+		}
 		return fmt.Sprintf("R%d", id), line
 	case "addrowitems":
 		t := idOf(toks[1])
@@ -1252,6 +1277,9 @@ func (x *Exec) do1(line string) (res string, leanLine string) {
 		x.pending = id
 		defer func() { x.pending = -1 }()
 		x.tables[t].AddRowItems(its...)
+		if !sameItems(its, x, toks[2]) {
+			return "CALLER-SLICE-MODIFIED", line
+		}
 		all := x.tables[t].AllRows()
 		if len(all) == before+1 {
 			x.rows[id] = all[before]
@@ -1659,3 +1687,18 @@ func (x *Exec) chainLen(owner string) int {
 }
 
 var _ = sort.Strings
+
+// sameItems: the argument slice a caller spreads into AddRowItems / AddHeaders is the caller's: after
+// the call it still holds the very items that were put there
+func sameItems(its []interface{}, x *Exec, list string) bool {
+	ids := listOf(list)
+	if len(ids) != len(its) {
+		return false
+	}
+	for i, id := range ids {
+		if !itemSame(its[i], x.items[idOf(id)]) {
+			return false
+		}
+	}
+	return true
+}
